@@ -102,7 +102,7 @@ SAugQuick(dummy) ==
   { Prog(("a" :> BaseA(cc)) @@ ("b" :> ModB(<<Aug(t1, p1)>>)) @@ ("c" :> ModC(<<Aug(t2, p2)>>))) :
       cc \in {"unset", "false"}, t1 \in Targets, p1 \in Payloads("b"), t2 \in ChainTargets, p2 \in ChainPayloads }
 MCOrder == <<"a", "b", "c", "as", "bs">>
-MCOrder2 == <<"a", "as", "b", "bs", "c", "d", "dd", "ds", "u", "us", "w", "v">>
+MCOrder2 == <<"a", "as", "b", "bs0", "bs", "c", "d", "dd", "ds", "u", "us", "w", "v">>
 
 \* thorough: two augments in b (written in either order), one in c, one in b's submodule bs
 ModBS(augs) == Mod("b", ImpA, <<"bs">>, << Stmt("grouping", "bg", << Leaf("bgl") >>) >> \o augs)
@@ -119,6 +119,26 @@ SAugPair(dummy) ==
 SAugSubQuick(dummy) ==
   { Prog(("a" :> BaseA("unset")) @@ ("b" :> ModBS(<<Aug(t1, p1)>>)) @@ ("bs" :> SubBS(<<Aug(t2, p2)>>))) :
       t1 \in {<< Q("a","c") >>, << Q("a","c"), Q("a","ch") >>}, p1 \in {XPayload, << Leaf("y") >>}, t2 \in ChainTargets, p2 \in ChainPayloads }
+  \cup    \* the submodule that augments is reached only through another submodule (b includes bs0, bs0 includes bs), or through it first
+  { Prog(("a" :> BaseA("unset")) @@ ("b" :> Mod("b", ImpA, incs, << Stmt("grouping", "bg", << Leaf("bgl") >>), Aug(t1, << Leaf("y") >>) >>))
+         @@ ("bs0" :> Sub("bs0", "b", ImpA, <<"bs">>, <<>>)) @@ ("bs" :> SubBS(<<Aug(t2, p2)>>))) :
+      incs \in {<<"bs0">>, <<"bs0", "bs">>, <<"bs", "bs0">>}, t1 \in {<< Q("a","c") >>}, t2 \in {<< Q("a","c") >>, << Q("a","e") >>, << Q("a","c"), Q("b","y") >>},
+      p2 \in {<< Leaf("z") >>, XPayload, << Uses("b", "bg") >>} }
+\* augments next to a deviation that takes the target (or an ancestor of it) away again: what went wrong while
+\* augmenting is reported all the same; and augments of two modules whose path TEXTS are equal but mean different nodes
+\* (each module's unprefixed absolute path is rooted in its own tree)
+NotSupp(t) == Stmt("deviation", t, << Stmt("deviate", "not-supported", <<>>) >>)
+SAugDev(dummy) ==
+  { Prog(("a" :> BaseA("unset")) @@ ("b" :> ModB(<<Aug(t1, p1)>>)) @@ ("c" :> ModC(<<Aug(t2, p2), NotSupp(t3)>>))) :
+      t1 \in {<< Q("a","c") >>, << Q("a","c"), Q("a","d") >>, << Q("a","e") >>}, p1 \in {<< Leaf("l") >>, << Leaf("y") >>, XPayload},
+      t2 \in {<< Q("a","c") >>, << Q("a","e") >>}, p2 \in {<< Leaf("y") >>, << Leaf("gc") >>},
+      t3 \in {<< Q("a","c") >>, << Q("a","c"), Q("a","d") >>, << Q("a","e") >>, << Q("a","li") >>} }
+  \cup
+  { Prog(("a" :> BaseA("unset"))
+         @@ ("b" :> Mod("b", ImpA, <<>>, << Stmt("container", "cont", << Leaf("own") >>), Aug(<< Q("","cont") >>, payB), Aug(tb, << Leaf("fb") >>) >>))
+         @@ ("c" :> Mod("c", ImpAB, <<>>, << Stmt("container", "cont", << Leaf("own") >>), Aug(<< Q("","cont") >>, payC), Aug(tb, << Leaf("fc") >>) >>))) :
+      payB \in {<< Leaf("from_b") >>, << Leaf("same") >>}, payC \in {<< Leaf("from_c") >>, << Leaf("same") >>},
+      tb \in {<< Q("a","c") >>, << Q("a","e") >>} }
 SAugTwo(dummy) ==
   { Prog(("a" :> BaseA("unset")) @@ ("b" :> ModB(<<Aug(t1, p1), Aug(t2, p2)>>)) @@ ("c" :> ModC(<<Aug(t3, << Leaf("y") >>)>>))) :
       t1 \in ChainTargets, p1 \in ChainPayloads, t2 \in ChainTargets, p2 \in ChainPayloads, t3 \in ChainTargets }
